@@ -279,8 +279,8 @@ def run(ctx):
         "equivalence = same token symbols and same token texts after stripping leading/trailing whitespace, newline-token runs collapsed (the relation the formatter's own self-check documents), checked in both directions",
         "IR equality is on module_ir.build_ir output with source positions removed, documentation text right-stripped, anonymous-bits numbering canonicalised",
     ]
-    per = ctx.pick(110, 2500)
-    widths = ctx.pick(2, 8)
+    per = ctx.pick(110, 1400)
+    widths = ctx.pick(2, 6)
     ctx.stats = vlib.run_shards(shard, 16, seed=ctx.seed, n=per, widths=widths)
     for kf in ctx.known:
         rep = kf.get("reproducer")
